@@ -347,7 +347,15 @@ func c12Concurrent(c *sim.Case) {
 			progs[g] = append(progs[g], c12In{op: sim.Pick(c, "op", 6), id: sim.Pick(c, "id", 2), val: 1 + sim.Pick(c, "val", 40)})
 		}
 	}
-	st := oidc.NewMemoryStore(&oidc.Clock{}, 0, 0)
+	// schedule perturbation: the store reads its clock inside its operations; a clock that dawdles widens whatever
+	// window an operation leaves open between its steps (and costs only time when the read happens under the lock)
+	dawdle := []time.Duration{0, 20 * time.Microsecond, 100 * time.Microsecond}[sim.Pick(c, "dawdle", 3)]
+	st := oidc.NewMemoryStore(&oidc.Clock{NowFn: func() time.Time {
+		if dawdle > 0 {
+			time.Sleep(dawdle)
+		}
+		return time.Now()
+	}}, 0, 0)
 	ctx := context.Background()
 	var clock int64
 	var mu sync.Mutex
